@@ -104,32 +104,60 @@ def snapshot(p):
     return (tuple(out), tuple(ctx))
 
 
+def _first_erasable(p):
+    from vlib.minityper import declarations_with_namespace
+    for _, d in declarations_with_namespace(p):
+        if isinstance(d, ast.VariableDeclaration) and d.var_type is not None and d.inferred_type is not None:
+            return d
+    return None
+
+
 def h_purity(eng, lang, K, tier, hist_pool, sym_rng=True, sym_draws=None):
+    """history of K operations before the translation under test.  Operations: the same translator translates a
+    pool member / the program itself; a fresh translator of another language translates the program; a second
+    translator of the same language is built from the *same options dict*; the program is changed in place (a
+    declared variable type is removed, as TypeErasure does) -- the driver uses one translator per program across
+    all stages.  The text must equal what a fresh translator (fresh options dict) produces for the program as it is now."""
     names = members(tier)
-    cast = bool(eng.fresh_bool('cast_numbers')) if sym_rng else False
+    cast = bool(eng.fresh_bool('cast_numbers'))
     cands = [n for n in names if isinstance(baseline(n, lang, cast), str)]
     pname = cands[int(eng.fresh_int(0, len(cands) - 1, 'member'))]
     p = fresh(pname)
-    snap0 = snapshot(p)
-    translator = F.TRANSLATORS[lang]('src.pkg', {'cast_numbers': cast})
+    opts = {'cast_numbers': cast}             # one dict shared by every translator of this "session"
+    translator = F.TRANSLATORS[lang]('src.pkg', opts)
     log = []
     pool = [n for n in hist_pool if isinstance(baseline(n, lang, cast), str)]
+    nops = len(pool) + len(F.LANGS) + 2
+    snap0 = snapshot(p)
+    mutated = False
     with FixedRandom():
         for _ in range(K):
-            op = int(eng.fresh_int(0, len(pool) + len(F.LANGS) - 1, 'history'))
+            op = int(eng.fresh_int(0, nops - 1, 'history'))
             if op < len(pool):
                 utils.translate_program(translator, fresh(pool[op]))
                 log.append('same translator: %s' % pool[op])
-            elif F.LANGS[op - len(pool)] == lang:
-                utils.translate_program(translator, p)
-                log.append('same translator: the program itself')
-            else:
+            elif op < len(pool) + len(F.LANGS):
                 other = F.LANGS[op - len(pool)]
-                if isinstance(baseline(pname, other, cast), str):
+                if other == lang:
+                    utils.translate_program(translator, p)
+                    log.append('same translator: the program itself')
+                elif isinstance(baseline(pname, other, cast), str) and not mutated:
                     F.translate(other, p, options={'cast_numbers': cast})
                     log.append('fresh %s translator: the program itself' % other)
                 else:
-                    log.append('(skipped: not translatable to %s)' % other)
+                    log.append('(skipped: other-language translation)')
+            elif op == nops - 2:
+                translator = F.TRANSLATORS[lang]('src.pkg', opts)
+                log.append('new translator from the same options dict')
+            else:
+                d = _first_erasable(p)
+                if d is not None:
+                    d.omit_type()
+                    mutated = True
+                    snap0 = snapshot(p)
+                    log.append('program changed in place: declared type of %s removed' % d.name)
+                else:
+                    log.append('(skipped: nothing to erase)')
     if sym_rng:
         with installed(eng, max_draws=200, max_sym_draws=sym_draws) as rnd:
             text = utils.translate_program(translator, p)
@@ -138,19 +166,30 @@ def h_purity(eng, lang, K, tier, hist_pool, sym_rng=True, sym_draws=None):
         with FixedRandom():
             text = utils.translate_program(translator, p)
             draws = 0
-    want = baseline(pname, lang, cast)
+    if mutated:
+        with FixedRandom():
+            want = F.translate(lang, P_clone(p), options={'cast_numbers': cast})
+    else:
+        want = baseline(pname, lang, cast)
     case = dict(member=pname, language=lang, cast_numbers=cast, history=log, rng_draws=draws)
     eng.event('translated')
     if draws:
         eng.event('consumed-randomness')
     if log:
         eng.event('with-history')
+    if mutated:
+        eng.event('in-place-change')
     eng.notes['sample'] = case
     eng.notes['observe'] = len(text)
     obs = [Ob('text-equals-fresh-baseline|%s|%s' % (lang, '>'.join(l.split(':')[0] for l in log)),
               text == want, lambda: dict(case, first_difference=_diff(text, want))),
-           Ob('program-unchanged|%s' % lang, snapshot(p) == snap0, case)]
+           Ob('program-unchanged|%s' % lang, snapshot(p) == snap0, case),
+           Ob('options-unchanged|%s' % lang, opts == {'cast_numbers': cast}, dict(case, options=str(opts)))]
     return obs
+
+
+def P_clone(p):
+    return pickle.loads(pickle.dumps(p))
 
 
 def _diff(a, b):
@@ -175,8 +214,9 @@ OUT = ('programs outside the families (fixtures + generated seeds listed); histo
 
 def jobs(tier):
     out = []
-    hist_pool = (['fixture/type_analysis12', 'generated/java/seed1'] if tier == 'quick' else
-                 ['fixture/program1', 'fixture/type_analysis12', 'generated/java/seed1', 'generated/kotlin/seed2'])
+    hist_pool = (['template/nested-function-4params', 'generated/java/seed1'] if tier == 'quick' else
+                 ['fixture/program1', 'fixture/type_analysis12', 'generated/java/seed1', 'generated/kotlin/seed2',
+                  'template/nested-function-4params'])
     nseeds = 2 if tier == 'quick' else 5
     for lang in F.LANGS:
         for K in ((2,) if tier == 'quick' else (1, 2, 3)):
@@ -186,8 +226,9 @@ def jobs(tier):
                            budget_s=2400, crosscheck_every=300, setup=lambda t=tier: members(t),
                            bounds='every family member (41 fixtures + %d generated programs per language) x every history '
                                   'of exactly %d earlier translations (same translator on %d pool members / on the program '
-                                  'itself; fresh translators of the other languages on the program); cast_numbers off; RNG '
-                                  'deterministic' % (nseeds, K, len(hist_pool)), outside=OUT))
+                                  'itself; fresh translators of the other languages on the program; a new translator from the same '
+                                  'options dict; an in-place removal of a declared type) x cast_numbers; RNG deterministic'
+                                  % (nseeds, K, len(hist_pool)), outside=OUT))
         out.append(Job('rng-%s' % lang, h_purity, dict(lang=lang, K=0, tier=tier, hist_pool=hist_pool, sym_rng=True,
                                                       sym_draws=2 if tier == 'quick' else 4),
                        split_depth=3, functions=funcs(), require_events=['translated'], budget_s=2400,
